@@ -501,6 +501,12 @@ def do_grpc(results):
         d.update(kw)
         checks.append(d)
 
+    def rt_ok(m):
+        try:
+            return type(m)().parse(bytes(m)) == m
+        except Exception:
+            return False
+
     def resolve_type(t):
         if t["kind"] == "wkt":
             gp = importlib.import_module("betterproto.lib.google.protobuf")
@@ -623,6 +629,12 @@ def do_grpc(results):
                         except Exception as e:
                             add(sname, me["name"], "build-values", False, short_exc(e))
                             continue
+                        bad_payload = [m for m in reqs + resps if not rt_ok(m)]
+                        if bad_payload:
+                            # the codec itself cannot round-trip this value (C01/C02 territory): not a stub/server question
+                            add(sname, me["name"], "payload-skipped", True, "payload of type %s does not survive bytes()/parse()" % type(bad_payload[0]).__name__,
+                                cardinality=me["card"], skipped=True)
+                            continue
                         behaviour[bname_py] = {"responses": resps}
                         calls.clear()
                         try:
@@ -650,6 +662,10 @@ def do_grpc(results):
                         if not me["cs"] and not reqs:
                             reqs = [tin()]
                         resps = [build(tout, r) for r in me["calls"][0]["responses"]]
+                        if not all(rt_ok(m) for m in reqs):
+                            reqs = [tin()] if not me["cs"] else [tin(), tin()]
+                        if not all(rt_ok(m) for m in resps):
+                            resps = [tout() for _ in resps]
                         ea = me.get("error_after", 0)
                         if not me["ss"]:
                             ea = 0
